@@ -376,13 +376,13 @@ theorem wilson_clamped (crit : Crit W) (conf : Confidence W) (n k : Nat) :
     (∀ i, Proportion.ciWilson crit conf n k = .ok i →
       ∃ lo hi, i = .twoSided lo hi ∧ gt lo hi = false ∧
         (conf.kind = .twoSided → lo = fmax (sub c s) zero ∧ hi = fmin (add c s) one) ∧
-        (conf.kind = .upper → lo = fmax (sub c s) zero ∧ hi = one) ∧
-        (conf.kind = .lower → lo = zero ∧ hi = fmin (add c s) one)) ∧
+        (conf.kind = .upper → lo = fmin (fmax (sub c s) zero) one ∧ hi = one) ∧
+        (conf.kind = .lower → lo = zero ∧ hi = fmax (fmin (add c s) one) zero)) ∧
     (Proportion.ciWilson crit conf n k = .err (.interval .invalidBounds) →
       ∃ lo hi : W, gt lo hi = true ∧
         (conf.kind = .twoSided → lo = fmax (sub c s) zero ∧ hi = fmin (add c s) one) ∧
-        (conf.kind = .upper → lo = fmax (sub c s) zero ∧ hi = one) ∧
-        (conf.kind = .lower → lo = zero ∧ hi = fmin (add c s) one)) := by
+        (conf.kind = .upper → lo = fmin (fmax (sub c s) zero) one ∧ hi = one) ∧
+        (conf.kind = .lower → lo = zero ∧ hi = fmax (fmin (add c s) one) zero)) := by
   intro c s
   refine ⟨fun i h => ?_, fun h => ?_⟩
   · exact Proportion.finishWilson_eq_ok (Proportion.ciWilson_eq_ok' h).2.2.2.2
@@ -780,6 +780,18 @@ theorem wilson_invalidBounds_XR (crit : Crit XR) (conf : Confidence XR) (n k : N
     ∃ lo hi : XR, lt hi lo = true ∧ lo ≠ .nan ∧ hi ≠ .nan ∧
       le (XR.fin 0) lo = true ∧ le hi (XR.fin 1) = true :=
   XR.ciWilson_invalidBounds_XR crit conf n k h
+
+/-- After the repair of D17 (`low.min(1.)` / `high.max(0.)` in the one-sided arms): a *one-sided*
+    `ci_wilson` never answers `InvalidBounds` on `XR` — whatever the counts and whatever the critical
+    value (negative, infinite, NaN).  Before the repair `ci(new_upper(1e-300), 2^53, 2^53 − 3)`
+    returned that error: the finite bound is the *other* root for a negative critical value and had
+    been rounded past 1. -/
+theorem wilson_one_sided_never_invalidBounds_XR (crit : Crit XR) (conf : Confidence XR) (n k : Nat)
+    (hk : conf.kind ≠ .twoSided) :
+    Proportion.ciWilson crit conf n k ≠ .err (.interval .invalidBounds) :=
+  XR.ciWilson_one_sided_never_invalidBounds_XR crit conf n k hk
+
+example : (Confidence.upper (XR.fin 0.3)).kind ≠ .twoSided := by simp [Confidence.kind]
 
 /-- the premise is satisfiable: a negative critical value (`z = −1`, five successes in ten) makes the
     span negative, `low = centre + |span| > centre − |span| = high` -/
